@@ -135,7 +135,7 @@ def instants(base, seed, R0):
             ts.add(s["unsub_time"])
     ts.update(t for (_, t, _, _) in R0.env.probe_log)
     ts.update(vt.SUB + t for (t, _, _) in cat.TLS(*alpha)[base[2]])
-    return sorted(t for t in ts if vt.SUB <= t < vt.HORIZON)
+    return sorted(t for t in ts if vt.SUB <= t < pg.HORIZON)
 
 
 def dispose_points(base, seed, R0, Rafter):
